@@ -93,14 +93,14 @@ def _same(snap, model):
     return True
 
 
-def step(op, n, created, last, now, d1, t, max_age):
+def step(op, n, created, last, now, d1, t, max_age, tid=None):
     """one operation from an arbitrary valid pre-state of n sessions"""
     _ctr[0] = 0
     mgr = MEM.InMemorySessionManager()
     _pre(mgr, n, created, last)
     model = dict(_snapshot(mgr))
     CLOCK.set([now, now + d1])
-    tid = _target(n, t)
+    tid = _target(n, t) if tid is None else tid
     if op == "create":
         sid = mgr.create_session({"name": "cli"}, "2024-11-05")
         if not isinstance(sid, str) or not sid:
@@ -158,7 +158,7 @@ def step(op, n, created, last, now, d1, t, max_age):
                 return "list:records"
         lst["intruder"] = None
         if n > 0:
-            del lst[IDS[0]]
+            del lst[next(iter(model))]
         if not _same(_snapshot(mgr), model):
             return "list:mutation-leaked-into-store"
     elif op == "clear":
@@ -190,7 +190,7 @@ def pick_req_id(i):
     return -5
 
 
-def handler_step(op, n, created, last, now, d1, t, idsel=0):
+def handler_step(op, n, created, last, now, d1, t, idsel=0, tid=None):
     """initialize / request-with-session-id through the protocol handler"""
     _ctr[0] = 0
     h = PH.ProtocolHandler(SERVER_INFO, SERVER_CAPS)
@@ -198,7 +198,7 @@ def handler_step(op, n, created, last, now, d1, t, idsel=0):
     _pre(mgr, n, created, last)
     model = dict(_snapshot(mgr))
     CLOCK.set([now, now + d1])
-    tid = _target(n, t)
+    tid = _target(n, t) if tid is None else tid
     if op == "initialize" or op == "initialize_sid":
         msg = JM.JSONRPCMessage(jsonrpc="2.0", id=pick_req_id(idsel), method="initialize",
                                 params={"protocolVersion": "2025-03-26", "clientInfo": {"name": "cli", "version": "9"}, "capabilities": {}})
@@ -259,3 +259,45 @@ def unique_ids(k):
     if len(set(ids)) != k or mgr.get_session_count() != k:
         return "ids-not-unique"
     return "ok"
+
+
+# ------------------------------------------------------------------ count dimension: stores of c-1, c, c+1 sessions
+from harness import sizes as _sizes  # noqa: E402
+
+
+def _many_state(k, tsel, lim):
+    global IDS
+    n = _sizes.pick(_sizes.size_cases(lim), k)
+    IDS = ["sess-%05d" % i for i in range(max(n, 3))]
+    created = [10 * (i % 3) for i in range(n)]
+    last = [100 - 10 * (i % 5) for i in range(n)]     # ages 0, 10, 20, 30, 40 at now = 100
+    if n == 0 or tsel == 3:
+        tid = MISSING
+    elif tsel == 0:
+        tid = IDS[0]
+    elif tsel == 1:
+        tid = IDS[n // 2]
+    else:
+        tid = IDS[n - 1]
+    return n, created, last, tid
+
+
+def step_many(op, k, tsel, agesel, lim=1100):
+    """one store operation from a store of n sessions (n = c-1, c, c+1 for the integer constants c of the source):
+    the operation touches one session (first / middle / last / missing) or sweeps all of them"""
+    n, created, last, tid = _many_state(k, tsel, lim)
+    max_age = (5, 25, 1000)[agesel] if 0 <= agesel <= 2 else -1
+    saved = list(IDS)
+    try:
+        return step(op, n, created, last, 100, 1, 0, max_age, tid=tid)
+    finally:
+        IDS[:] = saved[:3]
+
+
+def handler_many(op, k, tsel, idsel, lim=1100):
+    n, created, last, tid = _many_state(k, tsel, lim)
+    saved = list(IDS)
+    try:
+        return handler_step(op, n, created, last, 100, 1, 0, idsel, tid=tid)
+    finally:
+        IDS[:] = saved[:3]
